@@ -73,14 +73,16 @@ class SBytes(Sym):
 class SSeq(Sym):
     """tuple / list with symbolic length: (Array Int -> sort(ety), n).  list is a mutable box."""
 
-    __slots__ = ("arr", "n", "ety", "kind", "off")
+    __slots__ = ("arr", "n", "ety", "kind", "off", "mem", "lpos")
 
-    def __init__(self, arr, n, ety, kind="tuple", off=0):
+    def __init__(self, arr, n, ety, kind="tuple", off=0, mem=None, lpos=None):
         self.arr = arr
         self.n = n
         self.ety = ety
         self.kind = kind
         self.off = off  # element i is arr[off + i]
+        self.mem = mem  # ghost (lists of ints only): Array Int Bool, membership
+        self.lpos = lpos  # ghost: Array Int Int, a position of a member
 
     def at(self, i):
         """z3 element term at (in-range) index i"""
@@ -96,14 +98,35 @@ class SMap(Sym):
     """dict with symbolic content: has: Array K Bool, val: Array K V (mutable box).
     Insertion order is not modelled by this class."""
 
-    __slots__ = ("has", "val", "kty", "vty", "size")
+    __slots__ = ("has", "val", "kty", "vty", "size", "keys", "kpos")
 
-    def __init__(self, has, val, kty, vty, size=None):
+    def __init__(self, has, val, kty, vty, size=None, keys=None, kpos=None):
         self.has = has
         self.val = val
         self.kty = kty
         self.vty = vty
         self.size = size
+        self.keys = keys  # ghost: SSeq of the keys in iteration order (or None when not tracked)
+        self.kpos = kpos  # ghost: Array K Int, position of a present key in keys
+
+
+class SBytesIO(Sym):
+    """io.BytesIO: ghost content (Seq Int) + position.  Modelled for 0 <= pos <= len(buf)."""
+
+    __slots__ = ("buf", "pos")
+
+    def __init__(self, buf, pos):
+        self.buf = buf
+        self.pos = pos
+
+
+class SItems(Sym):
+    """dict.items() view taken from a map that carries its ghost key sequence"""
+
+    __slots__ = ("keys", "val", "vty", "kty")
+
+    def __init__(self, keys, val, kty, vty):
+        self.keys, self.val, self.kty, self.vty = keys, val, kty, vty
 
 
 class SObj(Sym):
@@ -201,8 +224,15 @@ class T:
         return Ty("oneof", values=values)
 
     @staticmethod
-    def map_of(kty, vty):
-        return Ty("map", kty=kty, vty=vty)
+    def map_of(kty, vty, ordered=False):
+        return Ty("map", kty=kty, vty=vty, ordered=ordered)
+
+    bytesio = Ty("bytesio")
+
+    @staticmethod
+    def indexed_list_of_int():
+        """list of ints that also carries ghost membership / position arrays (for 'x in list')"""
+        return Ty("seq", ety=Ty("int", lo=None, hi=None), seqkind="list", indexed=True)
 
 
 def sort_of(ty: Ty):
